@@ -1,10 +1,12 @@
 """Handle representations necessary for informative error messages."""
 import ast
 import inspect
+import io
 import itertools
 import re
 import reprlib
 import sys
+import tokenize
 import uuid
 from typing import (
     Any,
@@ -312,6 +314,33 @@ def inspect_decorator(
     raise first_error
 
 
+def _lines_continuing_string_literals(lines: List[str]) -> Set[int]:
+    """Determine the indices of the lines which start inside a (multi-line) string literal."""
+    result = set()  # type: Set[int]
+
+    fstring_start = getattr(tokenize, "FSTRING_START", None)
+    fstring_end = getattr(tokenize, "FSTRING_END", None)
+    fstring_start_rows = []  # type: List[int]
+
+    try:
+        for token in tokenize.generate_tokens(io.StringIO("".join(lines)).readline):
+            first_row, last_row = token.start[0], token.end[0]
+
+            if token.type == tokenize.STRING:
+                result.update(range(first_row, last_row))
+            elif fstring_start is not None and token.type == fstring_start:
+                fstring_start_rows.append(first_row)
+            elif fstring_end is not None and token.type == fstring_end:
+                if fstring_start_rows:
+                    result.update(range(fstring_start_rows.pop(), last_row))
+    except (tokenize.TokenError, SyntaxError):
+        # The tokens up to the error are all we need; the parsing reports the error.
+        pass
+
+    # The rows of the tokens start at 1, so ``range(first_row, last_row)`` gives the indices of the continuation lines.
+    return result
+
+
 def _parse_decorator(
     lines: List[str],
     lineno: int,
@@ -338,9 +367,14 @@ def _parse_decorator(
     first_line = decorator_lines[0]
     margin = first_line[: len(first_line) - len(first_line.lstrip())]
 
+    # The lines which continue a multi-line string literal belong to the literal and must be left as they are.
+    literal_lines = (
+        _lines_continuing_string_literals(lines=decorator_lines) if margin else set()
+    )
+
     decorator_text = "".join(
-        line[len(margin) :] if line.startswith(margin) else line
-        for line in decorator_lines
+        line[len(margin) :] if line.startswith(margin) and i not in literal_lines else line
+        for i, line in enumerate(decorator_lines)
     ) + "def dummy_{}(): pass".format(uuid.uuid4().hex)
 
     atok = asttokens.asttokens.ASTTokens(decorator_text, parse=True)
